@@ -27,35 +27,22 @@ Definition judge_ids (args : list Z) : list Z :=
   | [] => [BADCASE]
   end.
 
-Definition model (args : list Z) : list Z :=
+Definition decode (args : list Z) : ccase :=
   match args with
-  | 0 :: s => m_parse s
-  | [1; hi; lo] => m_format (of_halves hi lo)
-  | [2; _; _; _; _; _] => [1]
-  | 3 :: n :: r => let (cs, ws) := get_list r in m_str n cs (words_of ws)
+  | 0 :: s => CParse s
+  | [1; hi; lo] => CFormat (of_halves hi lo)
+  | [2; _; _; _; _; _] => CIdgen
+  | 3 :: n :: r => let (cs, ws) := get_list r in CStr n cs (words_of ws)
   | 4 :: r =>
       let (idt, r1) := get_list r in
       match r1 with
-      | nr :: r2 => let (rs, diffs) := rules_of (Z.to_nat nr) r2 in m_count idt rs diffs
-      | [] => [BADCASE]
+      | nr :: r2 => let (rs, diffs) := rules_of (Z.to_nat nr) r2 in CCount idt rs diffs
+      | [] => CBad
       end
-  | _ => [BADCASE]
+  | _ => CBad
   end.
-
-Definition spec_ok (args out : list Z) : bool :=
-  match args with
-  | 0 :: s => list_eqb out (s_parse s)
-  | [1; hi; lo] => ok_format (of_halves hi lo) out
-  | [2; _; _; _; _; _] => list_eqb out [1]
-  | 3 :: n :: r => let (cs, _) := get_list r in ok_str n cs out
-  | 4 :: r =>
-      let (idt, r1) := get_list r in
-      match r1 with
-      | nr :: r2 => let (rs, diffs) := rules_of (Z.to_nat nr) r2 in ok_count rs diffs out
-      | [] => false
-      end
-  | _ => false
-  end.
+Definition model (args : list Z) : list Z := run_case (decode args).
+Definition spec_ok (args out : list Z) : bool := ok_case (decode args) out.
 
 Definition entry (sub : Z) (args : list Z) : list Z :=
   if sub =? 0 then model args
